@@ -216,3 +216,10 @@ Definition run_history (h : list (world * ev)) : list lcall :=
   flat_map (fun we => dispatch_ev (fst we) (snd we)) h.
 Definition spec_history (h : list (world * ev)) : list lcall :=
   flat_map (fun we => spec_ev (fst we) (snd we)) h.
+
+(* one pass of process_user_defined_received_cache_changes over the readers of the subscriber
+   (communication_methods.rs:46-375): `added` lists, in processing order (reader by reader, change by
+   change), the reader of every change that add_reader_change accepted in this pass; the new-data chain
+   runs once PER CHANGE, nothing is remembered from one change to the next *)
+Definition dispatch_data_pass (c : world) (added : list nat) : list lcall :=
+  flat_map (fun i => dispatch_ev c (EvData i)) added.
